@@ -54,7 +54,7 @@ def nontrivial(s):
 
 
 def api_stage(prop, family, tier, seed, groups=("fm", "rist"), scale=None, scale_min=0, limit=None, workers=8, sample_rate=1.0,
-              negative=None, filter_fn=None, profile="release"):
+              negative=None, filter_fn=None, profile="release", must_fn=None):
     """TLC model-checks BPPApi over `family`, prints every behaviour; the harness replays all of them on the library."""
     st = StageResult("api:" + family)
     t0 = time.time()
@@ -77,7 +77,9 @@ def api_stage(prop, family, tier, seed, groups=("fm", "rist"), scale=None, scale
     if sample_rate < 1.0:
         scen = [s for s in scen if rng.random() < sample_rate] or scen[:1]
     if limit and len(scen) > limit:
-        scen = rng.sample(scen, limit)
+        must = [s for s in scen if must_fn and must_fn(s)]
+        rest = [s for s in scen if not (must_fn and must_fn(s))]
+        scen = must + rng.sample(rest, max(0, min(len(rest), limit - len(must))))
     path = os.path.join(wd, "scen.ndjson")
     with open(path, "w") as fh:
         for s in scen:
